@@ -933,6 +933,8 @@ let suites : (string * ((string * string) list -> (string * string) list -> stri
   "pair", run_pair;
   "close", run_close;
   "wire-in", run_wirein;
+  "agree-in", run_wirein;
+  "agree-out", run_wireout;
   "mask", (fun kvs _ -> run_mask kvs);
   "wire-out", run_wireout;
 ]
